@@ -603,13 +603,14 @@ func (r *vRun) step(st []any) {
 	case "req", "reqdup":
 		tag, kind := arg(1), arg(2)
 		r.mu.Lock()
-		// wire ids are a function of the name: r<i> -> 5000+i; d<i> re-uses the id of r<i>
+		// wire ids are a function of the name: r<i> -> i; d<i> re-uses the id of r<i>. They deliberately
+		// overlap with the ids of the endpoint's own outgoing calls (1, 2, 3, ...): the two id spaces are independent.
 		var wid int64
 		if op == "reqdup" {
 			kind = "call"
 		}
 		if n, err := strconv.Atoi(strings.TrimLeft(tag, "rdn")); err == nil {
-			wid = 5000 + int64(n)
+			wid = int64(n)
 		} else {
 			r.nextReq++
 			wid = 5100 + r.nextReq
@@ -636,7 +637,7 @@ func (r *vRun) step(st []any) {
 	case "pcancel":
 		var wid int64 = 666000
 		if n, err := strconv.Atoi(strings.TrimLeft(arg(1), "rd")); err == nil {
-			wid = 5000 + int64(n)
+			wid = int64(n)
 		}
 		r.log.emit("rd.deliver", "kind", "cancel", "id", fmt.Sprint(wid), "r", arg(1), "dup", false)
 		r.conn.rd <- vRead{msg: &jsonrpc.Request{Method: "notifications/cancelled", Params: json.RawMessage(fmt.Sprintf(`{"requestId":%d,"reason":"verif"}`, wid))},
